@@ -36,6 +36,11 @@ var c08Faults = []c08Fault{
 	{"$nope", "undefined-variable", false}, {"[$nope]", "undefined-variable", false}, {"map(&$nope, `[1]`)", "undefined-variable", false}, {"[let $v = `1` in $v, $v][1]", "undefined-variable", false},
 	{"`1` / `0`", "not-a-number", false}, {"`1` % `0`", "not-a-number", false}, {"`1` // `0`", "not-a-number", false}, {"`1e6144` * `1e6144`", "not-a-number", false}, {"`-1e6144` - `9e6144` - `9e6144`", "not-a-number", false},
 	{"to_string(chan)", "evaluation-failed", false},
+	// a fault in an argument that is not the last one, in an operand that is not the first one
+	{"merge($nope, `{}`)", "undefined-variable", false}, {"zip($nope, `[1]`)", "undefined-variable", false}, {"not_null($nope, `1`)", "undefined-variable", false}, {"merge({a: `1` / `0`}, `{}`)", "not-a-number", false},
+	{"zip([`1` % `0`], `[1]`)", "not-a-number", false}, {"merge({a: pad_left('s', `-1`)}, `{}`, `{}`)", "invalid-value", false}, {"zip(`[1]`, $nope, `[2]`)", "undefined-variable", false},
+	{"`null` < $nope", "undefined-variable", false}, {"'s' >= $nope", "undefined-variable", false}, {"missing <= abs('x')", "invalid-type", false}, {"`[]` > `1` / `0`", "not-a-number", false}, {"`true` < pad_left('s', `-1`)", "invalid-value", false},
+	{"$nope < `null`", "undefined-variable", false}, {"missing == $nope", "undefined-variable", false}, {"missing != abs('x')", "invalid-type", false}, {"`false` && $nope || $nope", "undefined-variable", false},
 	// an invalid argument must be reported whether or not the other arguments make the call a no-op
 	{"replace('abc', 'zz', '-', `-1`)", "invalid-value", false}, {"replace('abc', 'zz', '-', `1.5`)", "invalid-value", false}, {"replace('', 'zz', '-', `-1`)", "invalid-value", false}, {"replace('abc', 'zz', '-', 'x')", "invalid-type", false},
 	{"split('abc', 'zz', `-1`)", "invalid-value", false}, {"split('', ',', `-1`)", "invalid-value", false}, {"split('abc', 'zz', `0.5`)", "invalid-value", false}, {"pad_left('abcdef', `2`, 'xy')", "invalid-value", false},
@@ -62,6 +67,7 @@ var c08Carriers = []c08Carrier{
 	{"top", "%s", nil}, {"paren", "(%s)", nil}, {"list", "[%s, a]", nil}, {"hash", "{k: a, l: %s}", nil}, {"pipe-rhs", "a | %s", nil}, {"pipe-lhs", "%s | a", nil},
 	{"or-lhs", "%s || a", nil}, {"not", "!%s", nil}, {"eq", "%s == a", nil}, {"arg", "not_null(%s)", nil}, {"let-binding", "let $v = %s in a", nil}, {"let-body", "let $v = a in %s", nil},
 	{"projection-rhs", "arr[*].[%s]", nil}, {"filter", "arr[?%s]", nil}, {"expref-body", "map(&[%s], arr)", nil}, {"flatten-rhs", "arr[].[%s]", nil},
+	{"lt-rhs", "missing < %s", nil}, {"ge-rhs", "'s' >= %s", nil}, {"lt-lhs", "%s < missing", nil}, {"eq-rhs", "missing == %s", nil}, {"first-of-variadic", "not_null(%s, a, b)", nil}, {"first-of-merge", "[merge(%s, `{}`), a][1]", nil},
 	{"dead-and", "`false` && %s", nil}, {"dead-or", "`true` || %s", nil}, {"dead-and-lit", "`[]` && %s", nil},
 }
 
